@@ -56,15 +56,20 @@ func rbacLicense() *license.Client {
 	})
 }
 
-func newEnv(mode string) *env {
+func newEnv(mode string) *env { return newEnvSized(mode, 0, 1000) }
+
+// newEnvSized builds the stack with a bounded RBAC cache capacity (both the
+// per-token data cache and the decision cache take RBACManagerConfig.MaxCacheSize;
+// 0 = arc's default 10000) and a bounded AuthManager token cache.
+func newEnvSized(mode string, rbacMax, authMax int) *env {
 	e := &env{mode: mode, dir: vlib.TempDir("auth")}
-	am, err := auth.NewAuthManager(filepath.Join(e.dir, "auth.db"), longTTL, 1000, zerolog.Nop())
+	am, err := auth.NewAuthManager(filepath.Join(e.dir, "auth.db"), longTTL, authMax, zerolog.Nop())
 	if err != nil {
 		panic(fmt.Sprintf("NewAuthManager: %v", err))
 	}
 	e.am = am
 	e.lic = rbacLicense()
-	e.rm = auth.NewRBACManager(&auth.RBACManagerConfig{DB: am.GetDB(), LicenseClient: e.lic, Logger: zerolog.Nop(), CacheTTL: longTTL})
+	e.rm = auth.NewRBACManager(&auth.RBACManagerConfig{DB: am.GetDB(), LicenseClient: e.lic, Logger: zerolog.Nop(), CacheTTL: longTTL, MaxCacheSize: rbacMax})
 	if !e.rm.IsRBACEnabled() {
 		panic("RBAC licence gate is closed: verif licence shim not effective")
 	}
